@@ -135,8 +135,13 @@ def run(ck, binary, run_impl, replay):
         for i in range(40 if quick else 400):
             s = rand_bytes(rng, rng.choice([0, 1, 55, 56, 63, 64, 65, 119, 120, 1000]) if i % 2 else rng.randint(0, 80))
             hashes.append({"k": "bytes", "f": "md5", "hex": s.hex()})
-            for algo in ("md5", "sha1", "sha256", "sha512", "sha3-256", "sha3-512"):
+            # every algorithm name hash() accepts (std/php/hash.go), and names it must refuse
+            for algo in ("md5", "sha1", "sha-1", "sha256", "sha-256", "sha2_256", "sha512", "sha-512", "sha2_512",
+                         "sha3-256", "sha3-512"):
                 hashes.append({"k": "bytes", "f": "hash", "hex": s.hex(), "extra": {"algo": algo}})
+            if i < 6:
+                for algo in ("xxh3", "crc32", "no-such-algo", "", "MD5"):
+                    hashes.append({"k": "bytes", "f": "hash", "hex": s.hex(), "extra": {"algo": algo, "expect": "throw"}})
 
     def strip(c):
         return {k: v for k, v in c.items() if not k.startswith("_")}
@@ -209,6 +214,11 @@ def run(ck, binary, run_impl, replay):
 
     # ---- hashes
     for c, o in zip(hashes, o_hash):
+        if c.get("extra", {}).get("expect") == "throw":
+            if not str(o.get("err", "")).startswith("throw"):
+                ck.violation("hash:hash:unknown-algorithm-accepted", {"part": NAME, "case": c, "impl_out": o,
+                                                                     "clause": "an algorithm name that is not implemented must be refused"})
+            continue
         if crashed(o) or o.get("out") != o.get("ref"):
             algo = c.get("extra", {}).get("algo", "md5") if c["f"] == "hash" else "md5"
             ck.violation("hash:%s:%s" % (c["f"], algo), {"part": NAME, "case": c, "impl_out": o,
